@@ -17,7 +17,7 @@ import TinkVerif.Model.Mac
       `AESCMAC.ComputeMAC` (whole function) = first `tagLength` bytes of the CMAC
       `AESCMAC.VerifyMAC`  (whole function) = constant-time comparison with that truncation (lengths included)
       `ValidateCMACParams` (whole function) = `Mac.validCmacParams`
-    Abstracted as a parameter: `cmac : Bytes → Bytes` = `a.mac.Reset(); Write(data); Sum(nil)` of the internal
+    Abstracted as a parameter: `cmac : Bytes → Bytes` = `a.cmac.Compute(data)` of the internal
     AES-CMAC (tied to `Cmac.compute` in Props/GlueTie/CmacFull.lean); only "returns 16 bytes" is used.  The
     hypothesis `t ≤ 16` is what `NewAESCMAC` enforces through `ValidateCMACParams`; it is needed because
     `computed[:tagLength]` panics otherwise.
